@@ -35,3 +35,10 @@ Lemma digit_space_disjoint : forall c, udigit c = true -> uspace c = false.
 Proof.
   intros c H. unfold udigit, uspace in *. apply (rdisj_sound udigit_ranges); [vm_compute; reflexivity|exact H].
 Qed.
+(* '2', '4', '5' (the class digits of an enhanced status code) are \d *)
+Lemma udigit_245 : forall k, ((k =? 50) || (k =? 52) || (k =? 53)) = true -> udigit k = true.
+Proof.
+  intros k H.
+  apply orb_true_iff in H. destruct H as [H|H]; [apply orb_true_iff in H; destruct H as [H|H]|];
+    apply N.eqb_eq in H; subst k; vm_compute; reflexivity.
+Qed.
